@@ -599,6 +599,10 @@ class Walker:
             return None
         if (call_name(call) or '').split('.')[-1] in self.keep:
             return None
+        # a method value parked in an attribute by the compile phase: call what it holds
+        k_ = canon(call.func) if isinstance(call.func, ast.Attribute) else None
+        if k_ is not None and k_ in self.const_heap and isinstance(self.const_heap[k_], ast.Attribute):
+            call = ast.copy_location(ast.Call(func=copy.deepcopy(self.const_heap[k_]), args=call.args, keywords=call.keywords), call)
         r = self.resolver(call, self.cls, st)
         if r is None:
             return None
@@ -882,6 +886,13 @@ class _Ev:
         if k in self.st.heap:
             return copy.deepcopy(self.st.heap[k])
         return new
+
+    def v_Slice(self, e, cond):
+        # x[a:None] is x[a:]
+        f = lambda x: None if x is None else self.v(x, cond)
+        lo, hi, st = f(e.lower), f(e.upper), f(e.step)
+        drop = lambda x: None if isinstance(x, ast.Constant) and x.value is None else x
+        return ast.Slice(lower=drop(lo), upper=drop(hi), step=drop(st))
 
     def v_BoolOp(self, e, cond):
         vals = [self.v(e.values[0], cond)] + [self.v(x, True) for x in e.values[1:]]
